@@ -337,7 +337,10 @@ class ClientWebSocketResponse(Generic[_DecodeText]):
             self._close_wait = self._loop.create_future()
             self._set_closing()
             self._reader.feed_data(WS_CLOSING_MESSAGE)
-            await self._close_wait
+            try:
+                await self._close_wait
+            finally:
+                self._close_wait = None
 
         if self._closed:
             return False
@@ -402,7 +405,10 @@ class ClientWebSocketResponse(Generic[_DecodeText]):
             if self._closed:
                 return WS_CLOSED_MESSAGE
             elif self._closing:
-                await self.close()
+                # While close() of another task is between waking us and
+                # taking over, it goes on with the handshake (its code/message).
+                if self._close_wait is None:
+                    await self.close()
                 return WS_CLOSED_MESSAGE
 
             try:
